@@ -255,7 +255,7 @@ class Mon:
 
     def done(self, subject, sig=None, nontrivial=None):
         seen = self.ctx.__dict__.setdefault('_c20_sampled_laws', set())
-        if self.law not in seen and self.last and core.h64(repr(self.params)) % 7 == 0 and (
+        if self.law not in seen and self.last and core.h64(repr(self.params)) % 7 == 0 and nontrivial is None and (
                 R.is_error(subject) or len(R.render(subject)) >= 3):
             seen.add(self.law)
             self.ctx.sample({'law': self.law, 'arguments': self.params, 'last comparison': self.last})
@@ -869,6 +869,17 @@ def run(ctx):
         if ctx.mine(i) and any(c in s for c in OTHER_WS_ALPHA[2:]):
             ctx.count('TRIM:other-white-space')
             law_case(ctx, s)
+    # numbers with 16 or 17 significant digits (results of arithmetic: 0.35-0.1, 0.1+0.2) next to a tie or a multiple,
+    # integers beyond 2**53: TEXT rounds the number that is there, not its 15 digit rendering
+    for x in (0.35 - 0.1, 0.1 + 0.2, 2.4999999999999996, 1.0000000000000002, 0.15 + 0.15 + 0.15, 1.15 - 0.2, 9007199254740993,
+              123456789012345678, -(0.35 - 0.1), 4.35 * 100, 0.045 + 1e-17):
+        for fmt in ('0.0', '0', '0.00', '0%', '#,##0.0', '0.0000000000000000', '0.00000000000000000'):
+            i += 1
+            if len(fmt) > 10 and abs(x) >= 10:
+                continue      # (more than 28 digits in all: beyond the reference model's decimal context)
+            if ctx.mine(i):
+                ctx.count('TEXT:number-of-16-or-17-digits')
+                law_text(ctx, x, fmt)
     for v in numbers() + [True, False, None]:
         i += 1
         if ctx.mine(i):
